@@ -101,7 +101,7 @@ EXPORT errno_t _wcsupr_s_chk(wchar_t *restrict src, rsize_t slen,
         }
     }
 
-    while (*src && slen) {
+    while (slen && *src) {
 #ifdef HAVE_TOWUPPER_OK
         *src = towupper(*src);
 #else
